@@ -113,6 +113,7 @@ type State struct {
 	exceptFns []func(string) bool // for "?except" entries of wildHavoc: keys these functions accept were NOT havocked
 	navCopies []T // navigators this function obtained from Copy() (its own cursors)
 	lastFrame *Frame // the frame that has just returned (its locals are visible to ensures clauses)
+	replacers map[string][3]T // strings.NewReplacer results: content array, offset and length of the pair list they were built from
 	wildHavoc []string // key patterns havocked while those keys were not materialised yet
 	navOwner map[string]string // navigator value (term) -> the query value (term) whose Select produced it
 }
@@ -158,6 +159,12 @@ func (s *State) clone() *State {
 	n.wildHavoc = append([]string(nil), s.wildHavoc...)
 	n.navCopies = append([]T(nil), s.navCopies...)
 	n.exceptFns = append([]func(string) bool(nil), s.exceptFns...)
+	if s.replacers != nil {
+		n.replacers = make(map[string][3]T, len(s.replacers))
+		for k, v := range s.replacers {
+			n.replacers[k] = v
+		}
+	}
 	n.navOwner = make(map[string]string, len(s.navOwner))
 	for k, v := range s.navOwner {
 		n.navOwner[k] = v
